@@ -154,7 +154,7 @@ func genProgram(rt *rapid.T, allowFail bool) Case {
 	b.WriteString("let cnt = 0;\nlet ro = 41;\nlet shared = [0];\n")
 	b.WriteString("let rol = [3, 1, 2];\nlet ros = \"abc\";\nlet roo = new { a: 1, l: [4, 5], s: \"xy\" };\nlet rop = ?5;\nlet rof = 2.5;\nlet ron = [[1], [2, 3]];\n")
 	fmt.Fprintf(&b, "let rg = 0..%d;\n", rangeLen)
-	fmt.Fprintf(&b, "fn w(id: int, tag: str, n: int, rp: range) {\n    let k = 0;\n    while k < n {\n        k += 1;\n")
+	fmt.Fprintf(&b, "fn w(id: int, tag: str, n: int, rp: range, la: [int], oa: { v: int, l: [int] }) {\n    let k = 0;\n    while k < n {\n        k += 1;\n")
 	if useCounter {
 		b.WriteString("        cnt += 1;\n")
 	}
@@ -168,6 +168,8 @@ func genProgram(rt *rapid.T, allowFail bool) Case {
 		fmt.Fprintf(&b, "        if id == %d && k == %d { let z = 0; println(1 / z); }\n", failing, (iters+1)/2)
 	}
 	b.WriteString("        println(\"T\" + id.to_string() + \":\" + tag + \":\" + k.to_string());\n    }\n")
+	// compound arguments: the thread runs with the values given at the spawn, the spawner goes on changing its own
+	b.WriteString("    println(\"A\" + id.to_string() + \":\" + la.to_string() + \":\" + oa.v.to_string() + \":\" + oa.l.to_string());\n")
 	if useROValues {
 		b.WriteString("    let v1 = rol.len() + rol[0] + rol.last().unwrap() + roo.a + roo.l.len() + roo.l[1] + rop.unwrap() + ros.len() + roo.s.len() + ron[1].len() + ron.len();\n")
 		b.WriteString("    let v2 = rol.contains(2) && ros.contains(\"b\") && rop.is_some() && rol == [3, 1, 2] && roo.l.contains(4);\n")
@@ -187,21 +189,34 @@ func genProgram(rt *rapid.T, allowFail bool) Case {
 		tag := tags[i-1]
 		// the spawner changes its variable after the spawn: the thread must keep the values given at the spawn
 		// ... whatever kind of place the argument was read from: a variable, an object field, a list element
+		start := b.Len()
+		fmt.Fprintf(&b, "    let la%d = [%d, %d];\n    let oa%d = new { v: %d, l: [%d] };\n", i, i, i+1, i, i*10, i)
 		switch form := rapid.IntRange(0, 3).Draw(rt, "argForm"); form {
 		case 0:
-			fmt.Fprintf(&b, "    let t%d = %q;\n    let n%d = %d;\n    spawn w(%d, t%d, n%d, rl);\n    t%d = \"CHANGED\";\n    n%d = 0;\n", i, tag, i, iters, i, i, i, i, i)
+			fmt.Fprintf(&b, "    let t%d = %q;\n    let n%d = %d;\n    spawn w(%d, t%d, n%d, rl, LA, OA);\n    t%d = \"CHANGED\";\n    n%d = 0;\n", i, tag, i, iters, i, i, i, i, i)
 		case 1:
 			pk.Class("spawn-arg:field")
-			fmt.Fprintf(&b, "    let o%d = new { t: %q, n: %d, id: %d };\n    spawn w(o%d.id, o%d.t, o%d.n, rl);\n    o%d.t = \"CHANGED\";\n    o%d.n = 0;\n    o%d.id += 100;\n", i, tag, iters, i, i, i, i, i, i, i)
+			fmt.Fprintf(&b, "    let o%d = new { t: %q, n: %d, id: %d };\n    spawn w(o%d.id, o%d.t, o%d.n, rl, LA, OA);\n    o%d.t = \"CHANGED\";\n    o%d.n = 0;\n    o%d.id += 100;\n", i, tag, iters, i, i, i, i, i, i, i)
 		case 2:
 			pk.Class("spawn-arg:element")
-			fmt.Fprintf(&b, "    let lt%d = [%q, \"x\"];\n    let ln%d = [%d, %d];\n    spawn w(ln%d[1], lt%d[0], ln%d[-2], rl);\n    lt%d[0] = \"CHANGED\";\n    ln%d[0] = 0;\n    ln%d[1] = -1;\n", i, tag, i, iters, i, i, i, i, i, i, i)
+			fmt.Fprintf(&b, "    let lt%d = [%q, \"x\"];\n    let ln%d = [%d, %d];\n    spawn w(ln%d[1], lt%d[0], ln%d[-2], rl, LA, OA);\n    lt%d[0] = \"CHANGED\";\n    ln%d[0] = 0;\n    ln%d[1] = -1;\n", i, tag, i, iters, i, i, i, i, i, i, i)
 		default:
 			pk.Class("spawn-arg:nested")
-			fmt.Fprintf(&b, "    let d%d = new { inner: new { t: %q }, ns: [%d] };\n    spawn w(%d, d%d.inner.t, d%d.ns[0], rl);\n    d%d.inner.t = \"CHANGED\";\n    d%d.ns[0] = 0;\n", i, tag, iters, i, i, i, i, i)
+			fmt.Fprintf(&b, "    let d%d = new { inner: new { t: %q }, ns: [%d] };\n    spawn w(%d, d%d.inner.t, d%d.ns[0], rl, LA, OA);\n    d%d.inner.t = \"CHANGED\";\n    d%d.ns[0] = 0;\n", i, tag, iters, i, i, i, i, i)
+		}
+		{
+			// fill in the compound arguments of this spawn and change them right after it
+			seg := strings.ReplaceAll(strings.ReplaceAll(b.String()[start:], "LA", fmt.Sprintf("la%d", i)), "OA", fmt.Sprintf("oa%d", i))
+			head := b.String()[:start]
+			b.Reset()
+			b.WriteString(head + seg)
+			fmt.Fprintf(&b, "    la%d.push(99);\n    la%d[0] = -1;\n    oa%d.v = -1;\n    oa%d.l.push(99);\n", i, i, i, i)
 		}
 		for k := 1; k <= iters; k++ {
 			expect = append(expect, fmt.Sprintf("T%d:%s:%d\n", i, tag, k))
+		}
+		if failing != i {
+			expect = append(expect, fmt.Sprintf("A%d:[%d, %d]:%d:[%d]\n", i, i, i+1, i*10, i))
 		}
 		if useROValues {
 			pk.Class("read-only-values")
